@@ -137,6 +137,20 @@ pub fn run(progs: &str, mode: &str, seed: u64, samples: usize, out: &str) -> std
             pristine.push(r.into_iter().collect());
         }
         let (pv, px) = statics(&img);
+        if mode == "pagesweep" {
+            // one alteration per page of a large file; only the whole-file operations are run
+            t.ev(json!({"ev":"c07","alt":{"kind":"none"},"pages":[],"order":0,"ops":[],
+                        "vcrc": pv.clone(), "rawxml": classify(&px, Some(&px))}));
+            for k in 0..npages {
+                let mut b = img.clone();
+                let bit = k * PAGE * 8 + rng.below((PAGE * 8) as u64) as usize;
+                b[bit / 8] ^= 1 << (bit % 8);
+                let (v, x) = statics(&b);
+                t.ev(json!({"ev":"c07","alt":{"kind":"bit1","bits":[bit]},"pages":[k],"order":0,"ops":[],
+                            "vcrc": if v.starts_with("panic") {"panic".to_string()} else {v}, "rawxml": classify(&x, Some(&px))}));
+            }
+            continue;
+        }
         let mut case = |alt: Value, bytes: &[u8], caseno: usize, t: &mut TraceOut| {
             let pages: Vec<usize> = (0..npages).filter(|k| bytes[k * PAGE..(k + 1) * PAGE] != img[k * PAGE..(k + 1) * PAGE]).collect();
             // ground truth must be "detectably altered": skip alterations that happen to re-seal a page
